@@ -290,4 +290,25 @@ def c05_e(ctx: Ctx):
     return res
 
 
-RULES = [c05_a, c05_b, c05_c, c05_d, c05_e]
+@rule("C05-f")
+def c05_f(ctx: Ctx):
+    """Buffered mode is always left again and flushed: signac.buffered is the backend's own context manager, or a wrapper whose exit runs in a finally."""
+    from .lints import contextmanager_exit_on_error
+    R = "C05-f"
+    out = contextmanager_exit_on_error(ctx, R, ["signac", "signac.job", "signac.project", "signac.sync"])
+    m0 = ctx.prog.mod("signac")
+    k = "signac:buffered"
+    if "buffered" in m0.consts:
+        v = canon(m0.consts["buffered"])
+        if v.endswith(".buffer_backend"):
+            out.append(ctx.ok(R, None, None, f"signac.buffered = {v}: the dependency's own context manager", construct=k))
+        else:
+            out.append(ctx.inc(R, None, None, f"signac.buffered = {v}", construct=k))
+    elif ctx.prog.funcs.get("signac:buffered") is not None:
+        out.append(ctx.info(R, ctx.prog.funcs["signac:buffered"], None, "signac.buffered is a function (checked as a context manager above)", construct=k))
+    else:
+        out.append(ctx.inc(R, None, None, "signac.buffered not found", construct=k))
+    return out
+
+
+RULES = [c05_a, c05_b, c05_c, c05_d, c05_e, c05_f]
